@@ -20,7 +20,9 @@ def run(rep, tier, seed, replay):
                        "as integers), epoll event order (one batch = one read event, replies written afterwards), TCP delivery of a batch "
                        "in one segment, choke/keep-alive/have traffic (filtered out), encryption (plain connections), write blocking "
                        "(send budget is all-or-nothing per connection: blocked / unlimited), Close of a connection that is out of the read set",
-                       "not modelled at all: fetcher side (PeerConnectionMetadata::receive_metadata_piece / try_request_metadata_pieces, magnet)",
+                       "fetcher side (magnet): coq/C20/Fetcher.v is a specification-level model of the acceptance gate (SHA-1 a Section variable); it is tied to "
+                       "the code by the python oracle on harness/c20f.cc runs (done => file identical to the metadata named by the magnet), not by output equality; "
+                       "the delegator's request order and the transfer/leader logic are not modelled",
                        "pad bytes of the info dictionary are a fixed arithmetic function of the offset, implemented three times (C++, OCaml, python)",
                        "python property oracle gen/c20.py:oracle evaluated on the implementation's output"]))
     model = ltv.build_model("C20")
@@ -28,6 +30,9 @@ def run(rep, tier, seed, replay):
     if replay:
         cases = [json.load(open(replay))["case"]]
         stats = {"replay": 1}
+        freplay = cases if cases[0].startswith("F ") else []
+        if freplay:
+            cases = []
     else:
         cases, stats = G.gen(seed, tier)
     mo = ltv.run_sharded(model, cases)
@@ -68,14 +73,27 @@ def run(rep, tier, seed, replay):
         else:
             for kl, text in viol:
                 rep.violation(text, case=case, model=m, impl=o, theorem="property oracle C20", klass=kl)
+    # ---- fetcher side (magnet): implementation + oracle (the gate model of coq/C20/Fetcher.v is tied by this oracle)
+    implf = ltv.build_harness("c20f", ["c20f.cc", "common/session.cc"], libs=["-lcrypto"])
+    fcases = freplay if replay else G.gen_f(seed, tier)
+    fo = ltv.run_sharded(implf, [c[2:] for c in fcases], timeout=900)
+    fdone = fclasses = 0
+    fcl = {}
+    for i, case in enumerate(fcases):
+        o = fo[i] if i < len(fo) else "MISSING"
+        fdone += 1 if "done=1" in o else 0
+        for kl, text in G.oracle_f(case, o):
+            fcl[kl] = fcl.get(kl, 0) + 1
+            rep.violation(text, case=case, model="(oracle only)", impl=o, theorem="property oracle C20 fetcher (magnet_completes_only_verified, ext ids of requests)", klass=kl)
     if not coq["ok"]:
         rep.violation("C20 proof obligations no longer check (%d/%d): %s %s" % (
             coq["discharged"], coq["obligations"], "; ".join(coq["lint"] + coq["bad_axioms"]), coq["log"][-1500:]),
             theorem="coq/C20/Properties.v", found_input=False)
     stats = dict(stats)
     stats.update(metadata_replies_seen=nmeta, pex_messages_seen=npex, pex_toggles_seen=ntoggle,
-                 connections_closed_by_library=nclosed, oracle_classes=classes, unmodelled_cases=unmodelled)
-    rep.cov.update(evaluations=len(cases), distinct_nontrivial=len(nontrivial),
+                 connections_closed_by_library=nclosed, oracle_classes=classes, unmodelled_cases=unmodelled,
+                 fetcher_cases=len(fcases), fetcher_completed=fdone, fetcher_oracle_classes=fcl)
+    rep.cov.update(evaluations=len(cases) + len(fcases), distinct_nontrivial=len(nontrivial),
                    rule="cases = corpus + hand list + full piece sweep at every info size 16384k+{-1,0,1} (k<=3 quick, <=5 thorough) x private/public "
                         "+ random provider sweeps / request bursts / id-map handshakes / multi-peer PEX histories / blocked-write (send budget) histories / malformed streams "
                         "(+ every op list of length 3 over an 8-op alphabet in thorough); "
@@ -83,4 +101,4 @@ def run(rep, tier, seed, replay):
                    samples=samples, input_distribution=stats, mismatches=mism, exhaustive=(tier == "thorough"))
     rep.assumptions += ["plain (unencrypted) connections", "a blocked write accepts no byte at all (no partial writes inside a message)",
                         "integers in peer messages fit int64", "each scripted peer index connects at most once per case",
-                        "provider side only; the fetcher (magnet) side is not covered"]
+                        "fetcher side: safety (completion only with verified metadata) and request ids; not liveness"]
